@@ -84,9 +84,39 @@ RepCases ==
     \cup {[fam |-> "repbin", op |-> op, car |-> r.car, a |-> NumV(r.n), b |-> NumV(r.n), swap |-> sw] :
              op \in {"+", "*", "%", "==", "===", "<", ">=", "|", ">>>"}, r \in RepVals, sw \in BOOLEAN}
 
+(* family "upd": 11.3.1 / 11.3.2 postfix and 11.4.4 / 11.4.5 prefix increment and decrement on operands of EVERY   *)
+(* type (all of Vals: numbers incl. NaN, signed zeros, 2^53 neighbours; numeric, hex, padded and malformed strings;  *)
+(* booleans, null, undefined; the scripted conversion objects; the long hex strings), the reference being a          *)
+(* variable, a named property or an array element.  oldValue = ToNumber(GetValue(lhs)) (one conversion, logged),    *)
+(* newValue = oldValue +/- 1 by the rules of the + / - operator, PutValue(lhs, newValue); the value of the          *)
+(* expression is oldValue - the NUMBER - for the postfix forms and newValue for the prefix forms.  Each cell is      *)
+(* observed twice: obs = "res" the value of the expression, obs = "stored" the value read back from the reference.  *)
+(* "repupd": the same on a Number held in every internal representation (family "rep"): the update must not wrap   *)
+(* at the width of the carrier.                                                                                       *)
+UpdOps == {"++", "--"}
+UpdTgts == {"var", "prop", "elem", "gprop"}
+UpdCases ==
+    {[fam |-> "upd", op |-> op, post |-> po, tgt |-> tg, obs |-> ob, a |-> a] :
+        op \in UpdOps, po \in BOOLEAN, tg \in UpdTgts, ob \in {"res", "stored"}, a \in Vals \cup LongStrs}
+    \cup {[fam |-> "repupd", op |-> op, post |-> po, tgt |-> "var", obs |-> ob, car |-> r.car, a |-> NumV(r.n)] :
+        op \in UpdOps, po \in BOOLEAN, ob \in {"res", "stored"}, r \in RepVals}
+UpdExpect(Bin(_, _, _, _), Un(_, _, _), c) ==
+    LET old == Un("+", c.a, <<>>)                                     \* ToNumber(oldValue), 11.3.1 step 3 / 11.4.4 step 3
+    IN  IF old.thr # "" THEN old
+        ELSE LET new == Bin(IF c.op = "++" THEN "+" ELSE "-", old.v, IntV(1), old.log)
+             IN  IF c.obs = "res" /\ c.post THEN old ELSE new
+UpdJs(c, init) ==
+    LET ref == CASE c.tgt = "var" -> "x" [] c.tgt = "prop" -> "o.p" [] c.tgt = "elem" -> "o[0]" [] c.tgt = "gprop" -> "this.g"
+        pre == CASE c.tgt = "var" -> <<"var x = ">> \o init \o <<"; ">>
+                 [] c.tgt = "prop" -> <<"var o = {p: ">> \o init \o <<"}; ">>
+                 [] c.tgt = "elem" -> <<"var o = [">> \o init \o <<"]; ">>
+                 [] c.tgt = "gprop" -> <<"this.g = ">> \o init \o <<"; ">>
+        e == IF c.post THEN ref \o c.op ELSE c.op \o ref
+    IN  pre \o <<"var r = " \o e \o "; " \o (IF c.obs = "res" THEN "r" ELSE ref)>>
+
 (* small families: an explicit set of cases *)
 SmallCases ==
-    RepCases \cup
+    RepCases \cup UpdCases \cup
     {[fam |-> "un", op |-> op, a |-> a] : op \in UnOps, a \in Vals}
     \cup {[fam |-> "un", op |-> op, a |-> a] : op \in {"!", "typeof", "void"}, a \in Fns}
     \cup {[fam |-> "conv", f |-> f, a |-> a] : f \in Convs, a \in Vals}
@@ -316,6 +346,8 @@ Js(c) ==
       [] c.fam = "order1" -> <<"var b = 1; var a = {valueOf: function(){ b = 100; return 3; }}; a " \o c.op \o " b">>
       [] c.fam = "order2" -> <<"var a = 3; a " \o c.op \o " (a = 50, 1)">>
       [] c.fam = "compound" -> <<"var x = ", Lit(c.a), "; x " \o c.op \o "= (x = ", Lit(c.b), ", ", Lit(c.c), "); x">>
+      [] c.fam = "upd" -> UpdJs(c, <<Lit(c.a)>>)
+      [] c.fam = "repupd" -> UpdJs(c, Car(c.car, c.a))
       [] c.fam = "dv" -> DvJs(c)
 
 Expect(Bin(_, _, _, _), Un(_, _, _), Conv(_, _, _), TB(_), c) ==
@@ -331,6 +363,7 @@ Expect(Bin(_, _, _, _), Un(_, _, _), Conv(_, _, _), TB(_), c) ==
                            ELSE [thr |-> "", v |-> IntV(2), log |-> <<HLog(1), HLog(3)>>]
       [] c.fam \in {"order1", "order2"} -> Bin(c.op, IntV(3), IntV(1), <<>>)
       [] c.fam = "compound" -> Bin(c.op, c.a, c.c, <<>>)      \* 11.13.2: GetValue(lref) precedes the right operand
+      [] c.fam \in {"upd", "repupd"} -> UpdExpect(Bin, Un, c)
       [] c.fam = "dv" -> DvExpect(Bin, Un, Conv, c)
 
 (* object results are compared by identity *)
